@@ -258,6 +258,15 @@ func stress(c StressCase, st *report.Stats) (*report.Failure, int) {
 			}
 		}
 	}
+	// the same calls in reverse order: a result must not depend on which call came
+	// before it (stale state kept between calls)
+	for i := nin - 1; i >= 0; i-- {
+		for op := nop - 1; op >= 0; op-- {
+			if r := e.doOp(op, &e.inputs[i]); r != ref[i*nop+op] {
+				return report.Failf("depends-on-call-history", "%s on %q (df=%q) returned %q when the calls were made in reverse order, %q in forward order", opNames[op], e.inputs[i].query, e.inputs[i].df, r, ref[i*nop+op]), 0
+			}
+		}
+	}
 	if f := unchanged(e, "after the sequential runs"); f != nil {
 		return f, 0
 	}
